@@ -1,6 +1,6 @@
 """C16: rdsquashfs --describe output is valid gensquashfs --pack-file input."""
 OBLIGATIONS = []
-KN = {1: "name", 2: "slink_target", 3: "file_location"}
+KN = {1: "name", 2: "slink_target", 3: "file_location", 4: "root_attributes"}
 def desc(mode, nlen, tlen, tiers, timeout=300):
     sizes = sorted(set([nlen + 2, nlen + 8, nlen + tlen + 2, nlen + tlen + 3]))
     return dict(name="describe_%s_n%d_t%d" % (KN[mode], nlen, tlen), harness="harness/C16_describe.c",
@@ -17,11 +17,12 @@ def desc(mode, nlen, tlen, tiers, timeout=300):
                    "split_line (lib/util/src/split_line.c)", "canonicalize_name", "is_filename_sane"],
         bound={1: "print_name() of a name of exactly %d symbolic bytes (full range except NUL, '/', newline) tokenised on its own" % nlen,
                2: "describe line of a symlink with concrete name and a target of exactly %d symbolic bytes (full range except NUL, newline)" % tlen,
-               3: "describe line of a file with concrete name and an unpack root of exactly %d symbolic bytes" % tlen}[mode])
+               3: "describe line of a file with concrete name and an unpack root of exactly %d symbolic bytes" % tlen,
+               4: "the root directory alone: every permission pattern, uid 0..7, gid 10..17"}[mode])
 OBLIGATIONS.append(dict(desc(2, 1, 2, ["quick", "thorough"]), name="describe_slink_target_with_newline_n1_t2", allow_unreached=True,
     bound="describe line of a symlink with concrete name and a target of exactly 2 symbolic bytes, newline INCLUDED"))
 OBLIGATIONS[-1]["defines"] = dict(OBLIGATIONS[-1]["defines"], ALLOW_NL=1)
-OBLIGATIONS += [desc(1, 1, 1, ["quick", "thorough"]), desc(1, 2, 1, ["quick", "thorough"]), desc(2, 1, 2, ["quick", "thorough"]), desc(3, 1, 2, ["quick", "thorough"]),
+OBLIGATIONS += [desc(4, 1, 1, ["quick", "thorough"]), desc(1, 1, 1, ["quick", "thorough"]), desc(1, 2, 1, ["quick", "thorough"]), desc(2, 1, 2, ["quick", "thorough"]), desc(3, 1, 2, ["quick", "thorough"]),
                 desc(1, 3, 1, ["thorough"], 1200), desc(2, 1, 3, ["thorough"], 1200), desc(3, 1, 3, ["thorough"], 1200), desc(1, 4, 1, ["thorough"], 2400)]
 ASSUMPTIONS = ["stdout is captured by stub implementations of fputs/fputc/fwrite/printf (formats %s %u %o %c) - trusted, 40 lines",
                "allocations succeed only for the listed constant sizes (shape bound)",
